@@ -35,6 +35,18 @@ func SelfTest(r *fw.Run, spec Spec) {
 		}
 		total++
 		mut := strings.Replace(string(src), m.Old, m.New, 1)
+		alsoOK := true
+		for _, a := range m.Also {
+			if strings.Count(mut, a[0]) != 1 {
+				alsoOK = false
+			}
+			mut = strings.Replace(mut, a[0], a[1], 1)
+		}
+		if !alsoOK {
+			total--
+			out = append(out, res{m.Name, m.Rule, "skipped", "anchor text not found exactly once"})
+			continue
+		}
 		outcome, by := runMutant(r.Prop, spec, path, mut, m)
 		if outcome == "killed" {
 			killed++
